@@ -103,6 +103,9 @@ type Report struct {
 	Framework   string           `json:"framework,omitempty"`
 	MaxPoints   int              `json:"max_points"`
 	Recycle     bool             `json:"recycle,omitempty"`
+	// Samples are a few explored schedules written out: the deviations
+	// (choice point, alternative, kind, site) and the outcome class.
+	Samples []string `json:"samples,omitempty"`
 }
 
 func (r *Report) merge(o *Report) {
@@ -111,6 +114,12 @@ func (r *Report) merge(o *Report) {
 	r.Points += o.Points
 	r.Ineffective += o.Ineffective
 	r.Violations = append(r.Violations, o.Violations...)
+	if len(r.Samples) < 4 {
+		r.Samples = append(r.Samples, o.Samples...)
+		if len(r.Samples) > 4 {
+			r.Samples = r.Samples[:4]
+		}
+	}
 	for k, v := range o.Classes {
 		if r.Classes == nil {
 			r.Classes = map[string]int64{}
@@ -229,6 +238,17 @@ func (w *Worker) explore(t Task, prefix []int, ds, df, split int, filter Filter,
 		}
 	}
 	r.Classes[o.Class]++
+	if len(prefix) > 0 && len(r.Samples) < 2 && (ds+df >= 2 || r.Execs%97 == 3) {
+		var devs []string
+		for i, c := range x.Choices {
+			if c != 0 && i < len(x.Points) && c < len(x.Points[i].Alts) {
+				a := x.Points[i].Alts[c]
+				devs = append(devs, fmt.Sprintf("point %d -> alternative %d (%s at %s)", i, c, a.Kind, a.Site))
+			}
+		}
+		r.Samples = append(r.Samples, fmt.Sprintf("scenario %s: %d choice points, deviations: %s; outcome: %s",
+			t.Scenario, len(x.Points), strings.Join(devs, "; "), o.Class))
+	}
 	for _, f := range o.Foreign {
 		r.Foreign[f]++
 	}
